@@ -1,3 +1,113 @@
-From DI Require Import PyStr Copyright.
-Theorem C09_placeholder : True. Proof. exact I. Qed.
-Print Assumptions C09_placeholder.
+(* C09 - Machine-readable copyright files are recognised paragraph by paragraph (partial:
+   the paragraph structure, classification, routing and typing of fields, the copyright
+   statement converter and validity are proved; how continuation lines of a license or comment
+   decode is C20; documents are those of the deb822 grammar of C06 whose paragraphs all
+   classify as header, files or license and have no repeated field name). *)
+From Coq Require Import String.
+From Coq Require Import NArith List Bool.
+From DI Require Import Result PyStr Codec Deb822 Debcon Copyright Grammar822 Grammar822Facts Dep5Facts DepsParseFacts.
+Import ListNotations.
+Open Scope N_scope.
+
+(* classification by field names: Format (or Format-Specification), else Files, else License,
+   else catch-all *)
+Theorem C09_classification : forall fs,
+  ((has_name (lit "format") fs \/ has_name (lit "format-specification") fs) -> classify fs = PHeader) /\
+  (~ has_name (lit "format") fs -> ~ has_name (lit "format-specification") fs ->
+     (has_name (lit "files") fs -> classify fs = PFiles) /\
+     (~ has_name (lit "files") fs ->
+        (has_name (lit "license") fs -> classify fs = PLicense) /\
+        (~ has_name (lit "license") fs -> classify fs = PCatchAll))).
+Proof. exact classify_spec. Qed.
+Print Assumptions C09_classification.
+
+(* one paragraph per document paragraph, in order, of the type its names select; no recovery
+   rewrite touches a document without catch-all paragraphs *)
+Theorem C09_paragraph_per_document_paragraph : forall ps, wf_doc ps ->
+  Forall (fun g => classify g <> PCatchAll) (expected_doc 1 ps) ->
+  exists paras, from_text (doc_text ps) = Ok paras /\
+    Forall2 (fun g p => from_fields (classify g) g = Ok p /\ p_type p = classify g) (expected_doc 1 ps) paras.
+Proof. exact dep5_document. Qed.
+Print Assumptions C09_paragraph_per_document_paragraph.
+
+(* a paragraph without repeated names: every field with a value is kept under its own name;
+   the known names of the paragraph type are typed, all others are extra data *)
+Theorem C09_fields_routed : forall t fs, NoDup (map fname (live fs)) ->
+  from_fields t fs =
+  Ok (build_para t
+        (map (fun f => (fname f, fvalue f)) (filter (route t (all_extra t)) (live fs)))
+        (map (fun f => (fname f, fvalue f)) (filter (fun f => negb (route t (all_extra t) f)) (live fs)))
+        (map (fun f => (fname f, range_of f)) (live fs))).
+Proof. exact from_fields_distinct. Qed.
+Print Assumptions C09_fields_routed.
+
+Theorem C09_typed_field : forall t fs p f c, NoDup (map fname (live fs)) -> from_fields t fs = Ok p ->
+  In f (live fs) -> In (fname f, c) (known_fields t) -> all_extra t = false ->
+  In (fname f, convert c (fvalue f)) (p_fields p).
+Proof. exact typed_field_value. Qed.
+Print Assumptions C09_typed_field.
+
+Theorem C09_extra_field : forall t fs p f, NoDup (map fname (live fs)) -> from_fields t fs = Ok p ->
+  In f (live fs) -> known_name t (fname f) = false ->
+  dict_get (fname f) (p_extra p) = Some (fvalue f).
+Proof. exact extra_field_value. Qed.
+Print Assumptions C09_extra_field.
+
+(* the copyright statement converter, for EVERY value: whitespace runs collapse; the first word
+   is the year range when it passes the year-range test, the rest is the holder *)
+Theorem C09_statement : forall v,
+  statement_from_value v =
+  match split_ws v with
+  | [] => ([], [])
+  | w :: rest => if is_year_range w then (w, join [32] rest) else ([], join [32] (w :: rest))
+  end.
+Proof. exact statement_spec. Qed.
+Print Assumptions C09_statement.
+
+Theorem C09_statement_year_holder : forall y hs, word y -> is_year_range y = true -> Forall word hs ->
+  statement_from_value (join [32] (y :: hs)) = (y, join [32] hs).
+Proof. exact statement_year_holder. Qed.
+Print Assumptions C09_statement_year_holder.
+
+(* file patterns: a whitespace-separated list *)
+Theorem C09_files_patterns : forall ws, Forall word ws ->
+  convert FWS (join [32] ws) = VLines ws.
+Proof. intros ws H. unfold convert. now rewrite split_ws_join. Qed.
+Print Assumptions C09_files_patterns.
+
+(* license: short name = trimmed first line, text = decoded continuation lines *)
+Theorem C09_license_name_text : forall raw l0 ls, splitlines raw = l0 :: ls ->
+  convert FLicense raw = VLicense (strip l0) (lstrip (from_formatted_lines ls)).
+Proof. exact license_name_text. Qed.
+Print Assumptions C09_license_name_text.
+
+(* validity *)
+Theorem C09_no_files_paragraph_invalid : forall strict ps, of_type PFiles ps = [] -> doc_is_valid strict ps = false.
+Proof. exact no_files_invalid. Qed.
+Print Assumptions C09_no_files_paragraph_invalid.
+
+Theorem C09_header_and_files_valid : forall ps h f fs,
+  ps <> [] -> of_type PHeader ps = [h] -> of_type PFiles ps = f :: fs ->
+  forallb (para_is_valid false) (f :: fs) = true -> doc_is_valid false ps = true.
+Proof. exact header_and_files_valid. Qed.
+Print Assumptions C09_header_and_files_valid.
+
+Theorem C09_files_paragraph_valid : forall p, p_type p = PFiles ->
+  files_values p <> [] -> statements p <> [] -> lic_name p <> [] -> para_is_valid false p = true.
+Proof. exact files_paragraph_valid. Qed.
+Print Assumptions C09_files_paragraph_valid.
+
+(* a concrete document meets the hypotheses *)
+Example C09_nonvacuous :
+  let hdr := [mkGField (lit "Format") (lit " ") (lit "https://www.debian.org/doc/packaging-manuals/copyright-format/1.0/") []] in
+  let fl := [mkGField (lit "Files") (lit " ") (lit "* src/x") [];
+             mkGField (lit "Copyright") (lit " ") (lit "2001-2003,  Jane  Doe") [lit "  J. Roe"];
+             mkGField (lit "Licence") (lit " ") (lit "GPL-2+") [lit " text"; lit " ."; lit "  verbatim"]] in
+  match from_text (doc_text [(hdr, 2%nat); (fl, 0%nat)]) with
+  | Ok [h; f] =>
+      p_type h = PHeader /\ p_type f = PFiles /\ files_values f = [lit "*"; lit "src/x"] /\
+      statements f = [(lit "2001-2003,", lit "Jane Doe"); ([], lit "J. Roe")] /\
+      lic_name f = lit "GPL-2+" /\ doc_is_valid false [h; f] = true /\ doc_is_valid false [h] = false
+  | _ => False
+  end.
+Proof. vm_compute. repeat split; reflexivity. Qed.
